@@ -355,7 +355,10 @@ def run_ctor(ctx, case, c):
             bad = wf_problems(r[1]) + query_problems(r[1])
             l3(rec, "WF+queries")
             if bad:
-                rec.violation("constructed KnotVector not well formed: " + "; ".join(bad[:3]), case)
+                ks_ = sorted(set(x for x in vec))
+                close = any(b_ - a_ < F(1, 10**6) for a_, b_ in zip(ks_[:-1], ks_[1:]))
+                rec.violation("constructed KnotVector not well formed: " + "; ".join(bad[:3]), case,
+                              finding_key=("two-knot-values-closer-than-1e-6" if close else None))
     else:
         if r[0] == "ok":
             rec.violation("malformed vector accepted by the constructor", case, state=ser(observe(r[1])))
@@ -418,6 +421,7 @@ def run(ctx):
         ("wrongdeg", [0, 0, 1, 1], 0), ("wrongdeg2", [0, 0, 0, 1, 1, 1], 1), ("okdeg", [0, 0, F(1, 3), 1, 1], 1),
         ("excess-behind-near-duplicate", [-2] * 4 + [F(3999999999, 10**10)] + [F(2, 5)] * 5 + [1] * 4, None),
         ("excess-behind-near-duplicate1", [1, 1, F(23, 20) - F(1, 10**16), F(23, 20), F(23, 20), F(23, 20), F(10, 7), F(10, 7)], None),
+        ("near-duplicate-valid", [0, 0, 0, F(1, 2), F(1, 2) + F(1, 10**12), 1, 1, 1], None),      # witness of the recorded finding
         ("deg0", [0, F(1, 2), 1], None), ("deg0dup", [0, F(1, 2), F(1, 2), 1], None), ("head-tail", [-1, 0, 0, 1, 1], None),
     ]
     for label, v, d in ctor:
